@@ -446,7 +446,9 @@ fn judge(scn: &QueueScn, end: &EndState, sh: &Shared) -> Verdict {
                     br(&mut out, &["C10"], "emit-waited", format!("emit({}) had to wait inside the queuing sink (it blocked on an operation that was not enabled)", metric));
                 }
                 if scn.cap.is_none() && res.is_err() && !*panicked {
-                    br(&mut out, &["C10"], "unbounded-refused", format!("emit({}) on an unbounded queue was refused: {:?}", metric, res));
+                    // with panics scripted this is also "the sink keeps accepting metrics" (C11)
+                    let props: &[&'static str] = if scn.script.contains('p') { &["C10", "C11"] } else { &["C10"] };
+                    br(&mut out, props, "unbounded-refused", format!("emit({}) on an unbounded queue was refused: {:?}", metric, res));
                 }
             }
             Log::DropEnd { waited, panicked, .. } => {
@@ -606,7 +608,7 @@ fn judge(scn: &QueueScn, end: &EndState, sh: &Shared) -> Verdict {
                     *n += 1;
                     if let (Some((maxocc, own_failed)), Some(c)) = (in_emit.remove(&e.tid), cap) {
                         if !ok && !own_failed && maxocc < c {
-                            br(&mut out, &["C10"], "refused-with-room", format!("an emit returned an error although the queue never held more than {} of its {} entries during the call", maxocc, c));
+                            br(&mut out, if scn.script.contains('p') { &["C10", "C11"] } else { &["C10"] }, "refused-with-room", format!("an emit returned an error although the queue never held more than {} of its {} entries during the call", maxocc, c));
                         }
                     }
                 }
@@ -620,7 +622,7 @@ fn judge(scn: &QueueScn, end: &EndState, sh: &Shared) -> Verdict {
                         }
                     } else if let (Some(c), Some(st)) = (cap, in_emit.get_mut(&e.tid)) {
                         if occ < c {
-                            br(&mut out, &["C10"], "refused-with-room", format!("emit was refused although the queue held only {} of {} entries", occ, c));
+                            br(&mut out, if scn.script.contains('p') { &["C10", "C11"] } else { &["C10"] }, "refused-with-room", format!("emit was refused although the queue held only {} of {} entries", occ, c));
                         }
                         st.1 = true;
                         flags.push("emit-refused-when-full");
